@@ -135,8 +135,7 @@ C03_Fails(b, v) ==
         walk == IF Applicable(v, "v2") /\ IsOk(v["v2"]) /\ v["v2"].vw.k = "ok"
                    /\ (v["v2"].vw.walk.hit_bound
                        \/ (\E i \in 1..Len(v["v2"].vw.walk.items) : v["v2"].vw.walk.items[i].k = "panic")
-                       \/ Cardinality({i \in 1..Len(v["v2"].vw.walk.items) : v["v2"].vw.walk.items[i].k \in {"ok", "err"}})
-                            > RlLen(v["v2"].vw.tb) \div 3 + 1)
+                       \/ v["v2"].vw.walk.n - 3 > RlLen(v["v2"].vw.tb) \div 3 + 1)
                 THEN {<< "C03", "tlv-iteration", "v2" >>} ELSE {}
     IN  UNION {p(e) : e \in EntryPoints} \cup vw("v1b") \cup vw("v1s") \cup v2vw \cup walk
 
@@ -435,15 +434,18 @@ SameItem(obs, exp) ==
     /\ (exp.k = "ok" => obs.t = exp.t /\ obs.v = exp.v)
     /\ (exp.k = "err" => obs.e = exp.e /\ (exp.e = "InvalidTLV" => obs.a = exp.a /\ obs.b = exp.b))
 
+(* long walks are logged as their first 40 and last 5 items plus the total number of calls *)
+CapItems(e) == IF Len(e) > 50 THEN SubSeq(e, 1, 40) \o SubSeq(e, Len(e) - 4, Len(e)) ELSE e
+
 WalkFails(sec, walk, prop) ==
     IF walk.k # "ok" THEN {}
     ELSE LET items == [i \in 1..Len(walk.items) |-> StripItem(walk.items[i])]
-             w == TlvM!Walk(sec)
-             n == Len(w)
+             none == [k |-> "none"]
+             full == TlvM!Walk(sec) \o << none, none, none >>
+             exp == CapItems(full)
          IN  IF walk.hit_bound THEN {<< prop, "iteration-bound-hit", "v2" >>}
-             ELSE IF Len(items) # n + 3 THEN {<< prop, "item-count", "v2" >>}
-             ELSE IF \E i \in 1..n : ~SameItem(items[i], w[i]) THEN {<< prop, "item-differs", "v2" >>}
-             ELSE IF \E i \in (n + 1)..(n + 3) : items[i].k # "none" THEN {<< prop, "item-after-end", "v2" >>}
+             ELSE IF walk.n # Len(full) \/ Len(items) # Len(exp) THEN {<< prop, "item-count", "v2" >>}
+             ELSE IF \E i \in 1..Len(exp) : ~SameItem(items[i], exp[i]) THEN {<< prop, "item-differs", "v2" >>}
              ELSE {}
 
 C11_Fails(b, v) ==
